@@ -56,7 +56,7 @@ Init == l = 0 /\ viol = {} /\ drift = {} /\ cnt = [k \in {} |-> 0]
 Step ==
   /\ l < Len(Trace) /\ l' = l + 1
   /\ LET r == Check(Trace[l + 1]) IN
-     /\ viol' = IF Cardinality(viol) >= MaxViol THEN viol ELSE viol \cup {<<l + 1, nm>> : nm \in r.bad}
+     /\ viol' = viol \cup {<<l + 1, nm>> : nm \in {x \in r.bad : Cardinality({w \in viol : w[2] = x}) < MaxViol}}
      /\ drift' = IF r.drift /\ Cardinality(drift) < MaxViol THEN drift \cup {l + 1} ELSE drift
      /\ cnt' = Bump(cnt, r.tags)
   /\ (l + 1 = Len(Trace)) =>
